@@ -52,9 +52,21 @@ func respPayload(s *spec.Spec, mode, id string) *drv.RespPayload {
 					if ct == "" {
 						ct = "application/json"
 					}
-					rd.ContentType = ct
-					if ct == "application/json" {
-						rd.Schema = rr.Schema
+					// the JSON entry (if any) is the one described in full; the others are alternatives
+					pct, psc := ct, rr.Schema
+					var alts []string
+					for _, a := range rr.Also {
+						if a.ContentType == "application/json" && pct != "application/json" {
+							alts = append(alts, pct)
+							pct, psc = a.ContentType, a.Schema
+						} else {
+							alts = append(alts, a.ContentType)
+						}
+					}
+					sort.Strings(alts)
+					rd.ContentType, rd.AltTypes = pct, alts
+					if pct == "application/json" {
+						rd.Schema = psc
 					} else {
 						rd.Raw = true
 					}
@@ -112,6 +124,11 @@ func respCells(tier string) []cells.Cell {
 	out = append(out, cells.HeaderNameCells()...)
 	for _, c := range cells.StatusCells() {
 		if c.Attrs["fam"] == "status" {
+			out = append(out, c)
+		}
+	}
+	for _, c := range cells.RespSetCells() {
+		if c.Attrs["site"] != "reqbody" {
 			out = append(out, c)
 		}
 	}
